@@ -46,7 +46,7 @@ def _case(draw, tier):
         parts.append((3, st.fixed_dictionaries({"op": st.just("pidfile"), "i": st.just(0),
                                                 "what": st.sampled_from(["edit", "remove", "create"])})))
     op = ops.weighted(*parts)
-    return {"cfg": cfg, "contents": cs, "pids": pids, "ops": draw(st.lists(ops.on_instances(op), min_size=2, max_size=24))}
+    return {"cfg": cfg, "contents": cs, "pids": pids, "ops": draw(ops.history(ops.on_instances(op), 2, 24))}
 
 
 def strategy(tier):
